@@ -556,7 +556,10 @@ class BzrDir(controldir.ControlDir):
 
         See breezy.osutils.available_backup_name about race conditions.
         """
-        return osutils.available_backup_name(base, self.root_transport.has)
+        # base is a plain (unescaped) path; transports take URL-escaped ones.
+        return osutils.available_backup_name(
+            base, lambda name: self.root_transport.has(urlutils.escape(name))
+        )
 
     def backup_bzrdir(self):
         """Backup this bzr control directory.
